@@ -6,6 +6,7 @@ import CookModel.Lemmas.DiagMore
 import CookModel.Lemmas.DiagInside
 import CookModel.Lemmas.DiagQuiet
 import CookModel.Lemmas.DiagAnalysisMore
+import CookModel.Lemmas.DiagInterRef
 /-
   C07  Diagnostics are sound, complete and placed on the offending construct.
 
@@ -448,6 +449,65 @@ def C07_exInterCw : BP Rat :=
 example : ∃ mtoks body s1 s2 s3, Cut .hash C07_exInterCw mtoks body s1 s2 s3 ∧
     (parseModifiers (α := Rat) mtoks (curOff s1) s3).1.inter = some ⟨⟨false, false, 1⟩, ⟨2, 5⟩⟩ :=
   ⟨_, _, _, _, _, ⟨⟨_, rfl⟩, rfl, rfl⟩, rfl⟩
+
+/-- **Syntax errors of the intermediate-reference data `&( … )`** (`parse_intermediate_ref_data`).
+    The modifier tokens after the `&` are `(`, `inner`, `)`, `rest`, where `inner` contains no `)`;
+    `f` = the tokens of `inner` that are not blanks/block comments.  Then, from every parser state, the
+    function returns no data and the remaining tokens `rest`, and pushes EXACTLY one error (severity
+    error, stage parse):
+    * `f = []` (`&()`) ⇒ `inter-ref-empty`, labelled with the span of the parenthesised group;
+    * `f = [~, =, int]` (`&(~=1)`) ⇒ `inter-ref-wrong-order`, labelled with the `~` and the `=` tokens;
+    * `f = [int]` above 32767 (`&(99999)`) ⇒ `int-parse`, labelled with the number;
+    * `f = [-, int]` or `[+, int]` (`&(-1)`) ⇒ `inter-ref-sign`, labelled with the sign;
+    * `f = [x]`, `x` not an integer (`&(x)`) ⇒ `inter-ref-invalid`, labelled with the span of `inner`;
+    and `f = [int]` that fits is accepted WITHOUT event, the data's span being the whole group. -/
+theorem C07_inter_ref_syntax (op cp : Tok) (inner rest : List Tok) (s : BP α)
+    (hop : op.kind = .openParen) (hcp : cp.kind = .closeParen) (hin : ∀ t ∈ inner, t.kind ≠ .closeParen) :
+    (inner.filter nonBlankTok = [] →
+      parseInterRef (α := α) (op :: (inner ++ cp :: rest)) s = ((none, rest),
+        { s with evs := s.evs.push (.error ⟨.error, .parse, "inter-ref-empty",
+          [tokensSpan (op :: (inner ++ [cp]))]⟩) })) ∧
+    (∀ a b i, inner.filter nonBlankTok = [a, b, i] → a.kind = .tilde → b.kind = .eq → i.kind = .int →
+      parseInterRef (α := α) (op :: (inner ++ cp :: rest)) s = ((none, rest),
+        { s with evs := s.evs.push (.error ⟨.error, .parse, "inter-ref-wrong-order",
+          [⟨a.start, a.stop⟩, ⟨b.start, b.stop⟩]⟩) })) ∧
+    (∀ i, inner.filter nonBlankTok = [i] → i.kind = .int → 32767 < digitsToNat i.text →
+      parseInterRef (α := α) (op :: (inner ++ cp :: rest)) s = ((none, rest),
+        { s with evs := s.evs.push (.error ⟨.error, .parse, "int-parse", [⟨i.start, i.stop⟩]⟩) })) ∧
+    (∀ sg i, inner.filter nonBlankTok = [sg, i] → (sg.kind = .minus ∨ sg.kind = .plus) → i.kind = .int →
+      parseInterRef (α := α) (op :: (inner ++ cp :: rest)) s = ((none, rest),
+        { s with evs := s.evs.push (.error ⟨.error, .parse, "inter-ref-sign", [⟨sg.start, sg.stop⟩]⟩) })) ∧
+    (∀ x, inner.filter nonBlankTok = [x] → x.kind ≠ .int →
+      parseInterRef (α := α) (op :: (inner ++ cp :: rest)) s = ((none, rest),
+        { s with evs := s.evs.push (.error ⟨.error, .parse, "inter-ref-invalid", [tokensSpan inner]⟩) })) ∧
+    (∀ i, inner.filter nonBlankTok = [i] → i.kind = .int → digitsToNat i.text ≤ 32767 →
+      parseInterRef (α := α) (op :: (inner ++ cp :: rest)) s =
+        ((some ⟨⟨false, false, digitsToNat i.text⟩, tokensSpan (op :: (inner ++ [cp]))⟩, rest), s)) :=
+  ⟨parseInterRef_empty op cp inner rest s hop hcp hin,
+   fun a b i => parseInterRef_wrong_order op cp inner rest s hop hcp hin a b i,
+   fun i => parseInterRef_too_large op cp inner rest s hop hcp hin i,
+   fun sg i => parseInterRef_signed op cp inner rest s hop hcp hin sg i,
+   fun x => parseInterRef_invalid op cp inner rest s hop hcp hin x,
+   fun i => parseInterRef_good op cp inner rest s hop hcp hin i⟩
+
+/-- **Empty value.**  Value tokens that do not read as a number (or range) and whose text is blank
+    (`@x{ %g}`): `parse_value` pushes exactly `empty-value` (error, parse) labelled with the span of
+    that text, and returns a value located from the first token to the current offset. -/
+theorem C07_empty_value (tokens : List Tok) (s : BP α)
+    (hnone : numOrRange (α := α) (s.ext.has Gen.EXT_RANGE_VALUES) tokens = none)
+    (hemp : (buildText ((tokens.head?.map (·.start)).getD (curOff s)) tokens).isTextEmpty s.cs = true) :
+    Pushed [.error ⟨.error, .parse, "empty-value",
+        [(buildText ((tokens.head?.map (·.start)).getD (curOff s)) tokens).span]⟩] s
+      (parseValue (α := α) tokens s).2 ∧
+    (parseValue (α := α) tokens s).1.span = ⟨(tokens.head?.map (·.start)).getD (curOff s), curOff s⟩ :=
+  parseValue_empty tokens s hnone hemp
+
+/-! non-vacuity: `( )`, `(~=1)`, `(-1)` as token lists; a blank value -/
+example : ([⟨.ws, [' '], 3⟩] : List Tok).filter nonBlankTok = [] := by decide
+example : ([⟨.tilde, ['~'], 3⟩, ⟨.eq, ['='], 4⟩, ⟨.int, ['1'], 5⟩] : List Tok).filter nonBlankTok =
+    [⟨.tilde, ['~'], 3⟩, ⟨.eq, ['='], 4⟩, ⟨.int, ['1'], 5⟩] := by decide
+example : numOrRange (α := Rat) false [⟨.ws, [' '], 3⟩] = none ∧
+    (buildText 3 [⟨.ws, [' '], 3⟩]).isTextEmpty toyCharSpec = true := ⟨rfl, rfl⟩
 
 /-! ### Placement: labels inside the construct -/
 
